@@ -14,21 +14,21 @@ import (
 type Script struct {
 	boundVars    [][2]string
 	unregistered int // binders whose variables are not registered (no definitions under them)
-	lines   []string
-	nsym    int
-	strLits map[string]string // Go string literal -> SMT constant
-	strList []string
-	decl    map[string]bool
-	usesFP  bool
-	bvMode  bool // Go int is (_ BitVec 64) instead of Int
-	ufDecls []string
-	binder  int // >0: terms may mention bound variables, so nothing is named at top level
-	bridge  map[int]bool // widths for which nat<N> / bvof<N> (bit-vector <-> Int) are used
-	info     []lineInfo
-	defSyms  map[string][]string
-	declared map[string]bool
-	mu       sync.Mutex
-	boolDefs map[string]string
+	lines        []string
+	nsym         int
+	strLits      map[string]string // Go string literal -> SMT constant
+	strList      []string
+	decl         map[string]bool
+	usesFP       bool
+	bvMode       bool // Go int is (_ BitVec 64) instead of Int
+	ufDecls      []string
+	binder       int          // >0: terms may mention bound variables, so nothing is named at top level
+	bridge       map[int]bool // widths for which nat<N> / bvof<N> (bit-vector <-> Int) are used
+	info         []lineInfo
+	defSyms      map[string][]string
+	declared     map[string]bool
+	mu           sync.Mutex
+	boolDefs     map[string]string
 }
 
 func newScript(bv bool) *Script {
